@@ -856,7 +856,8 @@ def suite_handoff(ctx, can_run_model):
     impl = vlib.run_impl(scs, "ho-impl")
     model = vlib.run_model(scs, "ho-model") if can_run_model else {}
     timpl = vlib.run_impl(twins, "ho-twin")
-    ctx.clauses.update(["C04:sim_path_explored", "C09:source_untouched", "C15:snapshot_no_panic"])
+    ctx.clauses.update(["C04:sim_path_explored", "C09:source_untouched", "C15:snapshot_no_panic", "C15:crashed_nodes",
+                        "C15:inflight_once"])
     for (sc, tw, (rsc, feat, seed)) in zip(scs, twins, raw):
         sid = sc[1]
         ctx.evaluations += 1
@@ -883,6 +884,26 @@ def suite_handoff(ctx, can_run_model):
         if "SNAPSHOT" not in il:
             continue
         k = il.index("SNAPSHOT")
+        # C15: crashed nodes and in-flight events are carried over
+        sim_crashed = set()
+        nlive = None
+        for l in il[:k]:
+            if l.startswith("LOG NodeCrashed"):
+                sim_crashed.add(l.split()[3])
+            elif l.startswith("LOG NodeRecovered"):
+                sim_crashed.discard(l.split()[3])
+            elif l.startswith("Q "):
+                nlive = int(l.split()[2])
+        bef = [l for l in il[k:] if l.startswith("BEFORE ")]
+        if bef:
+            m = re.search(r"cr=\[([^\]]*)\] ne=(\d+)", bef[0])
+            snap_crashed = set(x for x in m.group(1).split(",") if x)
+            if snap_crashed != sim_crashed:
+                fail("C15:crashed_nodes", "simulator has crashed nodes %s, the snapshot %s" % (sorted(sim_crashed), sorted(snap_crashed)))
+            if nlive is not None and not sim_crashed and int(m.group(2)) != nlive:
+                fail("C15:inflight_once", "%d live events in the simulator queue, %d pending events in the snapshot" % (nlive, int(m.group(2))))
+            if nlive is not None and int(m.group(2)) > nlive:
+                fail("C15:inflight_once", "more pending events in the snapshot (%s) than live events in the simulator (%d)" % (m.group(2), nlive))
         # C09: what the simulator does after the checker ran = what it does when no checker was ever created
         cont = [l for l in il[k:] if l.split(" ")[0] in ("OP", "RET", "LOG", "STATE", "Q", "CNT", "NC", "PV")]
         # drop the MC part (up to AFTERMODE)
@@ -1028,6 +1049,133 @@ def suite_routes(ctx, can_run_model):
 
 
 # ---------------------------------------------------------------------------------------------------
+# PYTWIN suite (C18): the same script with Rust processes (issuing grouped by kind) and with Python processes
+
+PY_PAYLOADS = [b'{"k": "v"}', b'{"n": 1}', b'{"x": [1, 2]}', b'{"a": {"b": "c"}}']
+
+
+def suite_pytwin(ctx, can_run_model):
+    rng = random.Random(ctx.seed * 1000003 + 71)
+    n = ctx.scale(60, 1500)
+    gen_mc.PAYLOADS_OVERRIDE = PY_PAYLOADS
+    try:
+        raw = []
+        for j in range(n):
+            (sc, feat, seed) = gen_handoff.gen_scenario(rng, "py%d-%d" % (ctx.seed, j), clock_free=False)
+            lines = [l for l in sc[2]]
+            # Python processes cannot draw from the simulation's generator: draw-free programs only
+            raw.append((("PYTWIN", sc[1], lines), feat, seed))
+        # exception scenarios: the Python twin raises at its k-th invocation: the framework must stop with a handler error
+        exc = []
+        for j in range(max(4, n // 10)):
+            (sc, feat, seed) = gen_handoff.gen_scenario(rng, "pyx%d-%d" % (ctx.seed, j), clock_free=False)
+            k = sc[2].index("SNAPSHOT")
+            lines = ["RAISE %d %d" % (rng.randrange(2), rng.choice([1, 1, 2]))] + sc[2][:k] + ["OP UNTILNOEVENTS"]
+            exc.append((("PYTWIN", sc[1], lines), feat, seed))
+    finally:
+        gen_mc.PAYLOADS_OVERRIDE = None
+    scs = fill_draws(raw + exc)
+    impl = vlib.run_impl(scs, "py-impl", shards=8)
+    ctx.clauses.update(["C18:twin_identical", "C18:exception_surfaces", "C18:source_untouched", "C18:state_roundtrip"])
+    for idx, sc in enumerate(scs):
+        sid = sc[1]
+        ctx.evaluations += 1
+        il = impl.get(sid, [])
+        def fail(clause, detail):
+            ctx.monitor_failures.append({"clause": clause, "detail": detail, "scenario": vlib.scenario_text(sc),
+                                         "impl": il[:40], "seed": ctx.seed, "suite": "PYTWIN"})
+        if "TWIN rust" not in il or "TWIN python" not in il:
+            fail("C18:twin_identical", "harness produced no twin output: %s" % il[:3])
+            continue
+        k = il.index("TWIN python")
+        rust, py = il[1:k], il[k + 1:]
+        is_exc = idx >= len(raw)
+        if is_exc:
+            # the Rust twin does not raise; the Python twin must stop with a handler error (a panic of the framework)
+            # exactly when its k-th invocation happens, if it happens at all
+            hist_calls = sum(1 for l in rust if l.startswith("LOG MessageReceived") or l.startswith("LOG LocalMessageReceived") or l.startswith("LOG TimerFired"))
+            if "PANIC" in py or "TWINPANIC" in py:
+                ctx.count("python_exceptions_surfaced")
+                ctx.nontrivial.add(sc_hash(sc))
+            else:
+                # legitimate only if the process never reached that invocation: then both twins agree completely
+                core = lambda ls: [l for l in ls if not l.startswith(("ROUNDTRIP", "SRCSTATE"))]
+                if core(rust) != core(py):
+                    fail("C18:exception_surfaces", "the Python process raised but the run continued differently without a handler error")
+            continue
+        rt = [l for l in py if l.startswith("ROUNDTRIP")]
+        if rt and rt[0] != "ROUNDTRIP same":
+            fail("C18:state_roundtrip", "saving and restoring a Python process changed its state")
+        ss = [l for l in py if l.startswith("SRCSTATE")]
+        if ss and ss[0] != "SRCSTATE same":
+            fail("C18:source_untouched", "running the checker changed the state of the source Python processes")
+        a = [l for l in rust if not l.startswith(("ROUNDTRIP", "SRCSTATE"))]
+        b = [l for l in py if not l.startswith(("ROUNDTRIP", "SRCSTATE"))]
+        d = vlib.first_diff(a, b)
+        if d is not None:
+            fail("C18:twin_identical", "Rust twin and Python twin differ at line %d: %s / %s" % (d[0], d[1][:200], d[2][:200]))
+        nlog = sum(1 for l in rust if l.startswith(("LOG", "CHECK")))
+        if nlog >= 12:
+            ctx.nontrivial.add(sc_hash(sc))
+        if len(ctx.samples) < 2:
+            ctx.samples.append({"scenario": "\n".join(l for l in vlib.scenario_text(sc).split("\n") if not l.startswith(("DRAWS", "CLOCK"))),
+                                "impl_observation_head": il[:8]})
+    ctx.validated += 0
+
+
+# ---------------------------------------------------------------------------------------------------
+# C01 for model checking: the same exploration twice in one OS process (fresh hash maps) and in a second OS process
+
+def suite_mc_repeat(ctx, can_run_model):
+    rng = random.Random(ctx.seed * 1000003 + 73)
+    n = ctx.scale(120, 5000)
+    scs = []
+    for j in range(n):
+        feat = gen_mc.gen_features(rng)
+        # what makes hash order visible: several processes per node with pending events at a crash, several start
+        # states of equal depth with a shared cache
+        feat["crash"] = rng.random() < 0.5
+        base = gen_mc.gen_base(rng, feat)
+        feat_count(ctx, base["feat"])
+        st = rng.choice(["BFS", "DFS"])
+        vm = rng.choice(["FULL", "PARTIAL", "DISABLED"])
+        if rng.random() < 0.5:
+            scs.append(gen_mc.staged(rng, base, "rp%d-%d" % (ctx.seed, j), st, "FULL" if vm == "DISABLED" else vm, debug=1))
+        else:
+            scs.append(gen_mc.variant(base, "rp%d-%d" % (ctx.seed, j), st, vm, debug=1, repeat=1,
+                                      depth_prune=5 if vm == "DISABLED" else None))
+    impl = vlib.run_impl(scs, "rp-impl", env={"ASV_REPEAT": "1"})
+    impl2 = vlib.run_impl(scs, "rp-impl2")
+    model = vlib.run_model(scs, "rp-model") if can_run_model else {}
+    ctx.clauses.update(["C01:in_process_repeat", "C01:cross_process_repeat"])
+    for sc in scs:
+        sid = sc[1]
+        ctx.evaluations += 1
+        il = impl.get(sid, [])
+        if can_run_model:
+            d = vlib.first_diff(il, model.get(sid, []))
+            if d is not None:
+                ctx.disagreements.append({"suite": "MC model-vs-impl", "scenario": vlib.scenario_text(sc),
+                                          "diff": {"line": d[0], "impl": d[1][:300], "model": d[2][:300]}})
+            else:
+                ctx.validated += 1
+        rd = [l for l in il if l.startswith("REPEAT-DIFFERS")]
+        if rd:
+            ctx.monitor_failures.append({"clause": "C01:in_process_repeat", "detail": rd[0][:400],
+                                         "scenario": vlib.scenario_text(sc), "impl": il[:20], "seed": ctx.seed, "suite": "MCREPEAT"})
+        d2 = vlib.first_diff(il, impl2.get(sid, []))
+        if d2 is not None:
+            ctx.monitor_failures.append({"clause": "C01:cross_process_repeat",
+                                         "detail": "two OS processes give different results: %s" % (str(d2)[:400],),
+                                         "scenario": vlib.scenario_text(sc), "impl": il[:20], "seed": ctx.seed, "suite": "MCREPEAT"})
+        runs = parse_mc(il)
+        multi_proc_crash = any(l.startswith("CB CRASH") for l in sc[2])
+        starts = len(runs) == 2 and runs[0]["collected"] and len(runs[0]["collected"]) >= 2
+        if multi_proc_crash or starts:
+            ctx.nontrivial.add(sc_hash(sc))
+
+
+# ---------------------------------------------------------------------------------------------------
 
 def match_known(mf, known):
     for k in known:
@@ -1101,6 +1249,31 @@ SIM_ASSUMPTIONS = [
 ]
 
 PROPERTIES = {
+    "C01": {
+        "suites": [suite_sim_repeat, suite_mc_repeat],
+        "rule": SIM_RULE + " Every script is run by the implementation twice in one OS process (fresh hash maps) and "
+                "once more in a second OS process: the three histories must be identical, and equal to the model's. "
+                "Model checking: explorations (single and staged, half of them with a crash in the callback on nodes "
+                "hosting several processes) likewise in-process x2 and cross-process. distinct_nontrivial = SIM scripts "
+                "as for C05 plus MC scenarios with a crash in the callback or >= 2 start states.",
+        "assumptions": SIM_ASSUMPTIONS + [
+            "outside the model: address-, time- or thread-dependent behaviour and the values of ctx.rand() in "
+            "model-checking mode are covered by the repeated-run monitors only"],
+    },
+    "C18": {
+        "suites": [suite_pytwin],
+        "rule": "PYTWIN scenarios: the same hand-off script (simulate, snapshot, model-check, continue) is run with Rust "
+                "table-driven processes that issue each row grouped by kind and with Python twins "
+                "(harness/py/script_proc.py) through PyProcessFactory; payloads are normalised JSON; programs may read "
+                "the clock; traces, return values, counters, every model-checked state (pending events, trace, "
+                "outboxes, counters, verdict, 65 library predicates), results, save/restore round trips and the source "
+                "processes' states before/after the checker ran are compared; a tenth of the scripts make the Python "
+                "process raise: the framework must stop with a handler error. distinct_nontrivial = scripts with >= 12 "
+                "trace entries / evaluated states, or a surfaced exception.",
+        "assumptions": ["PARTIAL: only the relay logic is proved (C18_relay); pickle / deepcopy / json / pyo3 are "
+                        "exercised by the twin runs, not modelled",
+                        "payloads are normalised JSON (json.dumps(json.loads(x)) == x), as the property's quantifier says"],
+    },
     "C05": {"suites": [suite_sim], "rule": SIM_RULE, "assumptions": SIM_ASSUMPTIONS},
     "C06": {"suites": [suite_sim], "rule": SIM_RULE, "assumptions": SIM_ASSUMPTIONS + [
         "step_until_local_message_timeout is not among the calls C06 lists and is not held to a contract",
